@@ -6,11 +6,13 @@ given checks against the patched tree, and stores everything under /verif/seeded
 import json, os, re, shutil, subprocess, sys
 prop, i = sys.argv[1], sys.argv[2]
 checks = sys.argv[3:]
-src = "/tmp/mut-%s-out" % prop
+rnd = os.environ.get("SEED_ROUND", "")          # "" = first round, "2" = /tmp/mut2-<prop>-out
+src = "/tmp/mut%s-%s-out" % (rnd, prop)
+tag = ("%s-r%s-%s" % (prop, rnd, i)) if rnd else ("%s-%s" % (prop, i))
 patch = os.path.join(src, "patch%s.diff" % i)
 demo = os.path.join(src, "demo%s_test.go" % i)
 notes = os.path.join(src, "notes%s.md" % i)
-wt = "/tmp/seedev-%s-%s" % (prop, i)
+wt = "/tmp/seedev%s-%s-%s" % (rnd, prop, i)
 env = dict(os.environ, GOFLAGS="-mod=mod", GOPROXY="off", GOSUMDB="off", GOTOOLCHAIN="local")
 def sh(cmd, cwd=None, extra=None):
     e = dict(env); e.update(extra or {})
@@ -47,8 +49,8 @@ try:
                 # keep the replay next to the seeded change
                 m = re.search(r"replay=(\S+)", viol[0])
                 if m and os.path.exists(m.group(1)):
-                    os.makedirs("/verif/seeded/%s-%s" % (prop, i), exist_ok=True)
-                    shutil.copy(m.group(1), "/verif/seeded/%s-%s/replay_%s.json" % (prop, i, c))
+                    os.makedirs("/verif/seeded/%s" % tag, exist_ok=True)
+                    shutil.copy(m.group(1), "/verif/seeded/%s/replay_%s.json" % (tag, c))
             else:
                 results[c] = dict(caught=False, last=out.strip().splitlines()[-1][:200] if out.strip() else "")
             meta["ran"].append("VERIF_REPO=<patched worktree> ./check %s --tier quick" % c)
@@ -61,7 +63,7 @@ finally:
     for d in os.listdir("/verif/run/bin") if os.path.isdir("/verif/run/bin") else []:
         if "seedev" in d:
             os.remove(os.path.join("/verif/run/bin", d))
-dst = "/verif/seeded/%s-%s" % (prop, i)
+dst = "/verif/seeded/%s" % tag
 os.makedirs(dst, exist_ok=True)
 shutil.copy(patch, os.path.join(dst, "patch.diff"))
 shutil.copy(demo, os.path.join(dst, "demo_test.go"))
